@@ -287,8 +287,10 @@ func (e *Engine) parseClause(text, where string) *Clause {
 	if err != nil {
 		fatal("contract %s: cannot parse %q: %v", where, text, err)
 	}
-	return &Clause{Text: strings.TrimSpace(text), Expr: ex, Where: where, Group: curGroupTag}
+	return &Clause{Text: strings.TrimSpace(text), Expr: ex, Where: where, Group: curGroupTag, Props: curPropsTag}
 }
+
+var curPropsTag []string
 
 // curGroupTag: the "@G" suffix of the clause keyword being parsed
 var curGroupTag string
@@ -317,6 +319,7 @@ func (e *Engine) parseContractFile(p *packages.Package, f *ast.File, fname strin
 		first := strings.Fields(t)[0]
 		first = strings.TrimSuffix(first, ":")
 		first, _, _ = strings.Cut(first, "@")
+		first, _, _ = strings.Cut(first, "{")
 		if first == "func" || first == "lemma" || first == "axiom" || first == "type" || first == "define" || clauseKeywords[first] {
 			joined = append(joined, line{t, l.pos})
 		} else if len(joined) > 0 {
@@ -348,6 +351,17 @@ func (e *Engine) parseContractFile(p *packages.Package, f *ast.File, fname strin
 		kw, rest, _ := strings.Cut(l.text, " ")
 		kw = strings.TrimSuffix(kw, ":")
 		kw, curGroupTag, _ = strings.Cut(kw, "@")
+		// "ensures{C07,C03} expr": the clause is used (assumed at call sites, proved for the
+		// function) only in the checks of the listed properties
+		curPropsTag = nil
+		if i := strings.Index(kw, "{"); i > 0 && strings.HasSuffix(kw, "}") {
+			for _, pp := range strings.Split(kw[i+1:len(kw)-1], ",") {
+				if pp = strings.TrimSpace(pp); pp != "" {
+					curPropsTag = append(curPropsTag, pp)
+				}
+			}
+			kw = kw[:i]
+		}
 		rest = strings.TrimSpace(rest)
 		switch kw {
 		case "define":
